@@ -3,7 +3,7 @@ from harness.core import Target
 from harness import tie
 
 PID = "C06"
-ASSUMPTIONS = ["in progress"]
+ASSUMPTIONS = []
 TIE_IMPORTS = "From LunaModel Require Import Crc Handshake TokenDet IpTimer SetupDec SetupDec_proofs.\n"
 
 SETUP, OUT, IN, SOF, PING = 0x2D, 0xE1, 0x69, 0xA5, 0xB4
@@ -181,24 +181,84 @@ def traces(target, rng, tier):
     return directed(rng) + [gen_trace(rng, k % 3) for k in range(n)]
 
 
-FA = "true"; FB = "true"
+def sweeps(tier):
+    """exhaustive single-transaction sweeps from reset: (name, Coq index -> trace function, index bits, what)"""
+    return [("setup_bytes_hs", "sweep_setup_byte 0", 11,
+             "high speed: SETUP token + DATA0 with each of the 8 setup bytes taking all 256 values (correct CRC16)"),
+            ("setup_crcflip_fs", "sweep_setup_crcflip 1", 4,
+             "full speed: SETUP token + DATA0 with each single CRC16 bit flipped")] + \
+           ([("setup_bytes_fs", "sweep_setup_byte 1", 11, "full speed: same byte sweep, incl. the delayed ACK")]
+            if tier != "quick" else [])
 
 
 def obligations(targets, tier):
     t = targets[0]
-    return [tie.cmon("spec_setupdec", t, mon="sm_mon", m0="(sm_enc sm_init)", describe="specification monitor sm_step over simulator traces"),
-            tie.corr("corr_asfound", t, mstep=f"c6_step {FA} {FB}", m0="c6_init",
-                     describe="USBSetupDecoder(standalone=True) vs the model of the code as found")]
+    return [tie.cmon("spec_setupdec", t, mon="sm_mon", m0="(sm_enc sm_init)",
+                     describe="specification monitor sm_step (received / setup bytes / ack / endpoint, every cycle) over simulator traces of "
+                              "USBSetupDecoder wired to USBTokenDetector + USBDataPacketCRC + USBInterpacketTimer"),
+            tie.corr("corr_setupdec", t, mstep="c6_step true true", m0="c6_init",
+                     describe="the same netlist vs the corrected model c6_step true true, every output every cycle")]
 
 
 def tie_theorems(targets, tier):
-    return ""
+    G = targets[0].modname
+    s = ""
+    for name, fn, w, what in sweeps(tier):
+        s += f"""
+Lemma C06_sweep_{name}_ok : c6_sweep_eq {G}.step {G}.init {w} ({fn}) = true.
+Proof. vm_cast_no_check (@eq_refl bool true). Qed.
+Theorem C06_sweep_{name} : forall x, x < 2 ^ N.of_nat {w} ->
+  run {G}.step {G}.init ({fn} x) = run (c6_step true true) c6_init ({fn} x).
+Proof. exact (c6_sweep_sound _ _ _ _ C06_sweep_{name}_ok). Qed.
+"""
+    return s
 
 
 def tie_theorem_names(targets, tier):
-    return []
+    return [f"C06_sweep_{n}" for n, _, _, _ in sweeps(tier)]
 
 
-LEVEL_TEXT = "in progress"
-LEVEL_NOTE = "in progress"
-TECHNIQUE = "in progress"
+ASSUMPTIONS[:] = [
+    "target: USBSetupDecoder (with its USBDataPacketDeserializer, max_packet_size 8) wired to USBTokenDetector, USBDataPacketCRC and a "
+    "USBInterpacketTimer(60 MHz, HS-capable) exactly as USBDevice/USBControlEndpoint wire them; USBSetupDecoder(standalone=True) itself "
+    "cannot be elaborated to a netlist by amaranth 0.5.9 (DriverConflict on data_handler.data_crc.crc: the standalone scaffolding drives it "
+    "from the internal CRC unit and from self.data_crc.connect)",
+    "UTMI receive convention of C01/C04 (packet = maximal rx_active run, bytes at rx_valid except the run's first cycle); no assumption on "
+    "rx_active/rx_valid/rx_data/address",
+    "environment assumption of the specification (monitor returns None, nothing is claimed from that cycle on): speed is constant and HIGH or "
+    "FULL (LOW is excluded: the timer's low-speed table is C05's finding); at full speed no packet completes during the 11 cycles in which "
+    "the ACK is delayed (one full-speed byte takes 40 cycles at 60 MHz)",
+    "reading of 'followed by': event level, as DESIGN.md -- the SETUP token event must be the last token event for this device before the data "
+    "packet; packets that produce no event (handshakes, foreign-address tokens, SOF, CRC-corrupted or over-long data packets, garbage) in "
+    "between do not cancel it; a CRC-valid data packet of another length does; a data packet cut off before its CRC field may or may not "
+    "(explicit don't-care A_q: the deserializer compares stale CRC registers), until the next token event",
+    "the control endpoint's gate `received & (tokenizer.endpoint == endpoint_number)` is not inside USBSetupDecoder: the endpoint output is "
+    "checked every cycle to be C01's tokenizer endpoint, i.e. the endpoint of the SETUP token; USBControlEndpoint itself is C07's subject. "
+    "Observation (not claimed as a defect here): setup_decoder.ack is NOT gated by endpoint_targeted in USBControlEndpoint, so a SETUP to "
+    "another endpoint of the device is ACKed by the control endpoint",
+    "timer: a private USBInterpacketTimer started only by the decoder (as in standalone mode); in USBDevice the timer is shared with other "
+    "users, which can only restart it",
+    "no kernel-checked netlist tie for all traces: the deserializer's CRC register absorbs every rx_valid byte in every state, so even tiny "
+    "byte alphabets reach ~2^16 CRC values times the buffers; the tie is simulator correspondence + the specification monitor on directed and "
+    "random histories, plus exhaustive single-transaction sweeps of the regenerated netlist from reset (kernel-checked)",
+]
+
+LEVEL_TEXT = ("Machine-checked proof about the hand model, correspondence to the code. (1) For every input history the corrected model "
+              "(c6_step true true: decoder FSM + 8-byte deserializer + CRC16 unit + token detector + timer) is accepted in every cycle by the "
+              "specification monitor sm_step, which fixes received, the 8 setup bytes (little-endian), ack and the endpoint from the packet-level "
+              "history (C06_model_meets_spec; simulation relation c6_rel incl. the deserializer's CRC bookkeeping against crc16_usb). "
+              "(2) C06_setup_never_missed: after ANY history, a well-formed SETUP token for the device followed (after any idle gap, any rx_valid "
+              "pattern) by a DATAx packet with 8 bytes and correct CRC16 is reported: received two cycles after rx_active falls with exactly "
+              "those bytes, ack one cycle after at high speed; C06_fs_ack_timing: at full speed the ack comes exactly 12 cycles after rx_active "
+              "falls (10 cycles = 2 bit times after the timer restart), not before. (3) C06_received_sound: received is raised only for such a "
+              "packet while a SETUP was the last token event. (4) The netlist regenerated from /repo equals the corrected model on exhaustive "
+              "single-transaction sweeps from reset (C06_sweep_*) and, by simulator correspondence and the monitor, on directed and random "
+              "histories. ON THE UNCHANGED TREE THE CHECK FAILS (two defects, findings/C06-*.json/.diff: the deserializer hangs after a CRC "
+              "mismatch; a retried SETUP token is dropped); it passes with findings/C06-both-fixes.diff. Examples C06_refuted_as_found_1/2 show "
+              "the as-found model violating the property on the replayed histories.")
+LEVEL_NOTE = ("Trusted: Coq kernel + vm_compute, Amaranth elaboration, nir2coq.py/Netlist.v (validated each run against pysim). The unbounded "
+              "theorems are about the hand model; model = code is tied by correspondence (not a proof) and by bounded sweeps. Environment: speed "
+              "constant HIGH/FULL, no packet completion during the full-speed ACK delay. The specification has an explicit don't-care (A_q) after "
+              "a data packet cut off before its CRC field while a SETUP is pending. Low speed is excluded (C05's finding).")
+TECHNIQUE = ("Rocq proof: simulation relation between the composed FSM model and a packet-level specification monitor (induction over the trace), "
+             "CRC16 bookkeeping against the bit-serial reference; simulator correspondence + monitor + exhaustive vm_compute sweeps of the regenerated netlist")
